@@ -137,6 +137,17 @@ META = {
         assumptions=[],
         timeout=1800,
     ),
+    "C10": dict(
+        rule="AT programs as in C01; then for every branch (last first) a database failure injected at statement index "
+             "k = 1,2,... of the rollback transaction (BEGIN, undo_log select, validation selects, compensating "
+             "statements, undo_log delete, COMMIT; until the index lies beyond the transaction), a clean delivery, and "
+             "1-3 repeated deliveries; in 30% of the cases the coordinator rolls one branch back BETWEEN its "
+             "registration and its undo-log flush and the late local commit is observed. Observed after every "
+             "delivery: status, table, undo_log. non-trivial = at least one branch",
+        trusted=["memdb fault injection (Fault{Nth}); fakecoord holding the BranchRegister reply while it rolls the branch back"],
+        assumptions=[],
+        timeout=2400,
+    ),
 }
 
 def _member(impl, model):
